@@ -262,6 +262,29 @@ func c02Readers(fault int64) []c02Reader {
 			}
 			return nil, true, nil
 		}},
+		// Inspect(true) is the explicit request to verify: neither an option that lets the block reader
+		// skip hashing nor an earlier non-validating pass over the same Reader takes that away
+		{name: "v2.Reader.Inspect(true) on a Reader opened WithTrustedCAR(true)", hashes: true, run: func(in []byte) ([]refcar.Block, bool, error) {
+			rd, err := carv2.NewReader(base(in), carv2.WithTrustedCAR(true))
+			if err != nil {
+				return nil, false, err
+			}
+			if _, err = rd.Inspect(true); err != nil {
+				return nil, false, err
+			}
+			return nil, true, nil
+		}},
+		{name: "v2.Reader.Inspect(true) after Inspect(false) on the same Reader", hashes: true, run: func(in []byte) ([]refcar.Block, bool, error) {
+			rd, err := carv2.NewReader(base(in))
+			if err != nil {
+				return nil, false, err
+			}
+			_, _ = rd.Inspect(false)
+			if _, err = rd.Inspect(true); err != nil {
+				return nil, false, err
+			}
+			return nil, true, nil
+		}},
 		{name: "v2.Reader.Inspect(true)", hashes: true, run: inspect(true)},
 		{name: "v2.OpenReader(file).Inspect(true)", hashes: true, sparse: true, run: inspectFile(true)},
 		{name: "v2.OpenReader(file).Inspect(false)", sparse: true, run: inspectFile(false)},
@@ -738,7 +761,7 @@ func init() {
 	Register(&mon.Check{
 		ID:          "C02",
 		Level:       "exploration",
-		Rule:        "cases = (seeded small valid archive, container kind, mutation family); family cuts = EVERY proper prefix of the archive, family flips = every byte with one seeded bit (quick) or all 8 bits (thorough), family random = 200 random mutations (hash oracle only); family ioerr = the source itself fails with a non-EOF error on any access at or beyond offset j, for EVERY j inside the payload: readers that return or validate block bytes must not end cleanly and must deliver only complete, intact blocks; plus archives holding one section of 1 MiB+4 KiB / 2 MiB-1 / 2 MiB / 3 MiB (3- and 4-byte length varints) with every offset outside that block and ~30 sampled offsets inside it; each mutated input goes through 17 scanning readers (three of them with ZeroLengthSectionAsEOF on) (v2 BlockReader.Next on 3 source kinds, SkipNext on 2, Inspect(true|false), root CarReader, root LoadCar slow+batch); events_observed counts reader executions; non-trivial = every case (each holds ≥1 section)",
+		Rule:        "cases = (seeded small valid archive, container kind, mutation family); family cuts = EVERY proper prefix of the archive, family flips = every byte with one seeded bit (quick) or all 8 bits (thorough), family random = 200 random mutations (hash oracle only); family ioerr = the source itself fails with a non-EOF error on any access at or beyond offset j, for EVERY j inside the payload: readers that return or validate block bytes must not end cleanly and must deliver only complete, intact blocks; plus archives holding one section of 1 MiB+4 KiB / 2 MiB-1 / 2 MiB / 3 MiB (3- and 4-byte length varints) with every offset outside that block and ~30 sampled offsets inside it; each mutated input goes through 26 scanning readers (three of them with ZeroLengthSectionAsEOF on) (v2 BlockReader.Next on 3 source kinds, SkipNext on 2, Inspect(true|false), root CarReader, root LoadCar slow+batch); events_observed counts reader executions; non-trivial = every case (each holds ≥1 section)",
 		Assumptions: []string{"reference section table (refcar) decides where a cut/flip lands", "hashes recomputed with Go stdlib/x-crypto", "cuts at a section boundary and cuts after the end of a CARv2 payload are exempt from the truncation clause, as the property states"},
 		Gen:         genC02,
 		Run:         runC02,
